@@ -107,7 +107,7 @@ def judge_c07(spec: dict, rec: dict, fault: Any) -> list:
         ops = script_expectations(script)
         for op, ev in zip(ops, evs):
             if op[0] == 'compile':
-                must += trees.must_run(op[1])
+                must += trees.must_run(op[1], c)
                 if ev[2] == 'exc':
                     v.append((
                         f'client-got-error:{tb_signature(ev[4])}',
@@ -286,7 +286,7 @@ def judge_c12(spec: dict, rec: dict, fault: Any) -> list:
                             if o[0] == 'submit' and o[1] == op[1])
             if tree is None:
                 continue
-            for tag in trees.must_run(tree):
+            for tag in trees.must_run(tree, c if op[0] == 'compile' else c + ':' + op[1]):
                 n = cnt.get(str(tag), 0)
                 if n != 1:
                     v.append((
